@@ -713,154 +713,159 @@ def run(index, rep, tier):
     }
 
     # ---- R20.1 / R20.2
-    nloops = 0
-    for fi, loop in token_loops(index, sm):
-        nloops += 1
-        spun = progress_rule(rep, sm, fi, loop)
-        if not spun and _is_token_loop(sm, fi, loop):
-            eof_spin_rule(rep, sm, fi, loop)
-    rep.floor("R20.1", "loops in the reader/tokenizer modules", 35, nloops)
+    with rep.section("R20.1 / R20.2"):
+        nloops = 0
+        for fi, loop in token_loops(index, sm):
+            nloops += 1
+            spun = progress_rule(rep, sm, fi, loop)
+            if not spun and _is_token_loop(sm, fi, loop):
+                eof_spin_rule(rep, sm, fi, loop)
+        rep.floor("R20.1", "loops in the reader/tokenizer modules", 35, nloops)
 
     # ---- R20.3
-    nsrc = 0
-    DIM_FIELDS = ("self._file_specified_ntax", "self._file_specified_nchar")
-    def fields_of(fi):
-        return DIM_FIELDS if fi.cls is not None and fi.cls.name in ("NexusReader", "NexusTreeDataYielder", "NexusNewickTreeDataYielder") and fi.name not in (
-            "__init__", "_parse_dimensions_statement", "_read", "_too_many_taxa_error", "_too_many_characters_error") else ()
-    # entry state of the declared-dimension fields: known (not None) when every call site establishes it
-    entry = {f.qualname: {} for f in sm.fns}
-    for _ in range(6):
-        sites = {}
+    with rep.section("R20.3"):
+        nsrc = 0
+        DIM_FIELDS = ("self._file_specified_ntax", "self._file_specified_nchar")
+        def fields_of(fi):
+            return DIM_FIELDS if fi.cls is not None and fi.cls.name in ("NexusReader", "NexusTreeDataYielder", "NexusNewickTreeDataYielder") and fi.name not in (
+                "__init__", "_parse_dimensions_statement", "_read", "_too_many_taxa_error", "_too_many_characters_error") else ()
+        # entry state of the declared-dimension fields: known (not None) when every call site establishes it
+        entry = {f.qualname: {} for f in sm.fns}
+        for _ in range(6):
+            sites = {}
+            for fi in sm.fns:
+                if fields_of(fi):
+                    nullness_rule(rep, sm, fi, fields_of(fi), entry=entry[fi.qualname], quiet=True, callsites=sites)
+            new_entry = {}
+            for fi in sm.fns:
+                cs = sites.get(fi.qualname, [])
+                new_entry[fi.qualname] = {F: (NOTNONE if cs and all(c.get(F) == NOTNONE for c in cs) else MAYBE) for F in DIM_FIELDS}
+            if new_entry == entry:
+                break
+            entry = new_entry
+        rep.extra["dimension_guarded_entry"] = sorted(q.split("dataio.")[1] for q, e in entry.items() if any(v == NOTNONE for v in e.values()))
         for fi in sm.fns:
-            if fields_of(fi):
-                nullness_rule(rep, sm, fi, fields_of(fi), entry=entry[fi.qualname], quiet=True, callsites=sites)
-        new_entry = {}
-        for fi in sm.fns:
-            cs = sites.get(fi.qualname, [])
-            new_entry[fi.qualname] = {F: (NOTNONE if cs and all(c.get(F) == NOTNONE for c in cs) else MAYBE) for F in DIM_FIELDS}
-        if new_entry == entry:
-            break
-        entry = new_entry
-    rep.extra["dimension_guarded_entry"] = sorted(q.split("dataio.")[1] for q, e in entry.items() if any(v == NOTNONE for v in e.values()))
-    for fi in sm.fns:
-        a, b = nullness_rule(rep, sm, fi, fields_of(fi), entry=entry.get(fi.qualname))
-        nsrc += a
-    rep.floor("R20.3", "assignments from optional token sources", 40, nsrc)
+            a, b = nullness_rule(rep, sm, fi, fields_of(fi), entry=entry.get(fi.qualname))
+            nsrc += a
+        rep.floor("R20.3", "assignments from optional token sources", 40, nsrc)
 
     # ---- R20.4
-    reach = reachable_functions(index, sm)
-    rep.floor("R20.4", "functions reachable from the reader entry points", 40, len(reach))
-    nraise = 0
-    for q, fi in sorted(reach.items()):
-        pm = parent_map(fi.node)
-        for r in walk_no_nested(fi.node):
-            if not isinstance(r, ast.Raise):
-                continue
-            nraise += 1
-            ok, what = _raise_ok(index, fi, r, pm)
-            if not ok and fi.qualname in RAISE_EXEMPT:
-                rep.ob("R20.4", fn_where(fi, r), "%s: `%s` exempt - %s" % (fi.name, norm_stmt(r)[:50], RAISE_EXEMPT[fi.qualname]), True, nontrivial=False)
-                continue
-            rep.check(ok, "R20.4", fi.qualname, "raises %s" % what, fn_where(fi, r), "%s raises %s" % (fi.name, what),
-                      "%s, reachable from a reader entry point, raises %s (`%s`), which is not of the library's DataParseError family: bad data is reported as an internal/generic error" % (fi.qualname, what, norm_stmt(r)[:80]))
-        for c in calls_in(fi.node):
-            if isinstance(c.func, ast.Name) and c.func.id in ("int", "float") and c.args:
-                a = c.args[0]
-                atxt = norm(a)
-                if isinstance(a, ast.Constant) or atxt.startswith("len(") or ".group" in atxt:
-                    continue
-                if not ("token" in atxt or atxt in ("c", "char")):
+    with rep.section("R20.4"):
+        reach = reachable_functions(index, sm)
+        rep.floor("R20.4", "functions reachable from the reader entry points", 40, len(reach))
+        nraise = 0
+        for q, fi in sorted(reach.items()):
+            pm = parent_map(fi.node)
+            for r in walk_no_nested(fi.node):
+                if not isinstance(r, ast.Raise):
                     continue
                 nraise += 1
-                guarded = _in_try_catching(pm, c, ("ValueError", "Exception", None))
-                if not guarded:
-                    cfg = cfg_of(fi)
-                    cn = node_of_ast(cfg, c)
-                    reachn = cfg.reach([cfg.entry], follow_exc=False,
-                                       edge_ok=lambda s, l, d, atxt=atxt: not (s.kind == "test" and norm(s.ast) in (atxt + ".isdigit()", atxt + ".isnumeric()") and l == "t"))
-                    guarded = cn is not None and cn not in reachn
-                rep.check(guarded, "R20.4", fi.qualname, "unguarded %s" % norm(c), fn_where(fi, c), "%s: `%s` is under a ValueError handler or a digit test" % (fi.name, norm(c)),
-                          "%s converts token text with `%s` outside any ValueError handler and without a digit test: a non-numeric token raises a bare ValueError from inside the reader" % (fi.qualname, norm(c)))
-    rep.floor("R20.4", "raise statements and numeric conversions on the reader paths", 60, nraise)
+                ok, what = _raise_ok(index, fi, r, pm)
+                if not ok and fi.qualname in RAISE_EXEMPT:
+                    rep.ob("R20.4", fn_where(fi, r), "%s: `%s` exempt - %s" % (fi.name, norm_stmt(r)[:50], RAISE_EXEMPT[fi.qualname]), True, nontrivial=False)
+                    continue
+                rep.check(ok, "R20.4", fi.qualname, "raises %s" % what, fn_where(fi, r), "%s raises %s" % (fi.name, what),
+                          "%s, reachable from a reader entry point, raises %s (`%s`), which is not of the library's DataParseError family: bad data is reported as an internal/generic error" % (fi.qualname, what, norm_stmt(r)[:80]))
+            for c in calls_in(fi.node):
+                if isinstance(c.func, ast.Name) and c.func.id in ("int", "float") and c.args:
+                    a = c.args[0]
+                    atxt = norm(a)
+                    if isinstance(a, ast.Constant) or atxt.startswith("len(") or ".group" in atxt:
+                        continue
+                    if not ("token" in atxt or atxt in ("c", "char")):
+                        continue
+                    nraise += 1
+                    guarded = _in_try_catching(pm, c, ("ValueError", "Exception", None))
+                    if not guarded:
+                        cfg = cfg_of(fi)
+                        cn = node_of_ast(cfg, c)
+                        reachn = cfg.reach([cfg.entry], follow_exc=False,
+                                           edge_ok=lambda s, l, d, atxt=atxt: not (s.kind == "test" and norm(s.ast) in (atxt + ".isdigit()", atxt + ".isnumeric()") and l == "t"))
+                        guarded = cn is not None and cn not in reachn
+                    rep.check(guarded, "R20.4", fi.qualname, "unguarded %s" % norm(c), fn_where(fi, c), "%s: `%s` is under a ValueError handler or a digit test" % (fi.name, norm(c)),
+                              "%s converts token text with `%s` outside any ValueError handler and without a digit test: a non-numeric token raises a bare ValueError from inside the reader" % (fi.qualname, norm(c)))
+        rep.floor("R20.4", "raise statements and numeric conversions on the reader paths", 60, nraise)
 
     # ---- R20.5
-    edges = {}
-    for f in sm.fns:
-        outs = set()
-        for c in calls_in(f.node):
-            for cal in sm.callees(f, c):
-                if cal.qualname in sm.byq:
-                    outs.add(cal.qualname)
-        edges[f.qualname] = outs
-    cycles = _sccs(edges)
-    rep.extra["reader_call_graph"] = {"functions": len(edges), "edges": sum(len(v) for v in edges.values())}
-    for comp in cycles:
-        q = sorted(comp)[0]
-        fi = sm.byq[q]
-        rep.check(False, "R20.5", q, "recursion cycle %s" % " -> ".join(x.rsplit(".", 1)[1] for x in sorted(comp)), fn_where(fi),
-                  "recursion in the reader call graph", "the reader functions %s call each other recursively with a depth driven by the input (nesting / number of consecutive comments): a long enough input exhausts the interpreter stack and the reader fails with RecursionError"
-                  % sorted(x.split("dataio.")[1] for x in comp))
-    if not cycles:
-        rep.ob("R20.5", "src/dendropy/dataio", "reader call graph (%d functions) is acyclic" % len(edges), True)
-    for f in sm.fns:
-        pass
+    with rep.section("R20.5"):
+        edges = {}
+        for f in sm.fns:
+            outs = set()
+            for c in calls_in(f.node):
+                for cal in sm.callees(f, c):
+                    if cal.qualname in sm.byq:
+                        outs.add(cal.qualname)
+            edges[f.qualname] = outs
+        cycles = _sccs(edges)
+        rep.extra["reader_call_graph"] = {"functions": len(edges), "edges": sum(len(v) for v in edges.values())}
+        for comp in cycles:
+            q = sorted(comp)[0]
+            fi = sm.byq[q]
+            rep.check(False, "R20.5", q, "recursion cycle %s" % " -> ".join(x.rsplit(".", 1)[1] for x in sorted(comp)), fn_where(fi),
+                      "recursion in the reader call graph", "the reader functions %s call each other recursively with a depth driven by the input (nesting / number of consecutive comments): a long enough input exhausts the interpreter stack and the reader fails with RecursionError"
+                      % sorted(x.split("dataio.")[1] for x in comp))
+        if not cycles:
+            rep.ob("R20.5", "src/dendropy/dataio", "reader call graph (%d functions) is acyclic" % len(edges), True)
+        for f in sm.fns:
+            pass
 
     # ---- R20.6
-    pr = index.function(DIO + "phylipreader.PhylipReader._read")
-    cls = index.klass(DIO + "phylipreader.PhylipReader")
-    for dim in ("ntax", "nchar"):
-        checks = []
-        for m in cls.methods.values():
-            cfg = cfg_of(m)
-            for n in cfg.nodes:
-                if n.kind == "test" and ("self." + dim) in norm(n.ast) and isinstance(n.ast, ast.Compare) and all(isinstance(o, (ast.Eq, ast.NotEq)) for o in n.ast.ops):
-                    if raises_in_branch(cfg, n, "t") is not None or raises_in_branch(cfg, n, "f") is not None or _branch_calls_raiser(cfg, n):
-                        checks.append((m, n))
-        rcfg = cfg_of(pr)
-        parse_nodes = [n for n in rcfg.nodes if any((call_name(c) or "").startswith("_parse_") for c in node_calls(n))]
-        post = [c for c in checks if c[0].name == "_read" and any(rcfg.can_reach(p, lambda n, t=c[1]: n is t) is not None for p in parse_nodes)]
-        # a parse routine that itself ends with the comparison on every normal path discharges the obligation for its call
-        self_checking = set()
-        for m in cls.methods.values():
-            if not m.name.startswith("_parse_"):
+    with rep.section("R20.6"):
+        pr = index.function(DIO + "phylipreader.PhylipReader._read")
+        cls = index.klass(DIO + "phylipreader.PhylipReader")
+        for dim in ("ntax", "nchar"):
+            checks = []
+            for m in cls.methods.values():
+                cfg = cfg_of(m)
+                for n in cfg.nodes:
+                    if n.kind == "test" and ("self." + dim) in norm(n.ast) and isinstance(n.ast, ast.Compare) and all(isinstance(o, (ast.Eq, ast.NotEq)) for o in n.ast.ops):
+                        if raises_in_branch(cfg, n, "t") is not None or raises_in_branch(cfg, n, "f") is not None or _branch_calls_raiser(cfg, n):
+                            checks.append((m, n))
+            rcfg = cfg_of(pr)
+            parse_nodes = [n for n in rcfg.nodes if any((call_name(c) or "").startswith("_parse_") for c in node_calls(n))]
+            post = [c for c in checks if c[0].name == "_read" and any(rcfg.can_reach(p, lambda n, t=c[1]: n is t) is not None for p in parse_nodes)]
+            # a parse routine that itself ends with the comparison on every normal path discharges the obligation for its call
+            self_checking = set()
+            for m in cls.methods.values():
+                if not m.name.startswith("_parse_"):
+                    continue
+                own = {t.id for mm, t in checks if mm is m}
+                if own:
+                    mcfg = cfg_of(m)
+                    if mcfg.must_pass(mcfg.entry, lambda n: n.id in own)[0]:
+                        self_checking.add(m.name)
+            parse_nodes = [n for n in parse_nodes if not all((call_name(c) or "") in self_checking for c in node_calls(n) if (call_name(c) or "").startswith("_parse_"))] or parse_nodes[:0]
+            if not parse_nodes:
+                rep.ob("R20.6", fn_where(pr), "declared %s is compared inside every parse routine (%s)" % (dim, sorted(self_checking)), True)
                 continue
-            own = {t.id for mm, t in checks if mm is m}
-            if own:
-                mcfg = cfg_of(m)
-                if mcfg.must_pass(mcfg.entry, lambda n: n.id in own)[0]:
-                    self_checking.add(m.name)
-        parse_nodes = [n for n in parse_nodes if not all((call_name(c) or "") in self_checking for c in node_calls(n) if (call_name(c) or "").startswith("_parse_"))] or parse_nodes[:0]
-        if not parse_nodes:
-            rep.ob("R20.6", fn_where(pr), "declared %s is compared inside every parse routine (%s)" % (dim, sorted(self_checking)), True)
-            continue
-        rep.check(bool(post), "R20.6", pr.qualname, "declared %s compared after parsing" % dim, fn_where(pr),
-                  "PhylipReader._read compares the declared %s with what was read, on a raising path, after the data loop (%d comparisons in the class)" % (dim, len(checks)),
-                  "PhylipReader stores the declared `%s` but _read never compares it with what was actually read after the data loop: a document whose rows are shorter than declared is returned as a ragged matrix that contradicts its own header" % dim)
-        # ... and in every mode: each parse call is followed, on every normal path to the return, by one of the comparisons
-        # (or by the head of the loop that holds it - a loop over zero rows has nothing to compare)
-        if post:
-            pmr = parent_map(pr.node)
-            passing = set()
-            for m, t in post:
-                passing.add(t.id)
-                cur = pmr.get(t.stmt)
-                while cur is not None and cur is not pr.node:
-                    if isinstance(cur, (ast.For, ast.While)):
-                        passing |= {n.id for n in rcfg.nodes if n.stmt is cur and n.kind in ("for", "forinit", "join")}
+            rep.check(bool(post), "R20.6", pr.qualname, "declared %s compared after parsing" % dim, fn_where(pr),
+                      "PhylipReader._read compares the declared %s with what was read, on a raising path, after the data loop (%d comparisons in the class)" % (dim, len(checks)),
+                      "PhylipReader stores the declared `%s` but _read never compares it with what was actually read after the data loop: a document whose rows are shorter than declared is returned as a ragged matrix that contradicts its own header" % dim)
+            # ... and in every mode: each parse call is followed, on every normal path to the return, by one of the comparisons
+            # (or by the head of the loop that holds it - a loop over zero rows has nothing to compare)
+            if post:
+                pmr = parent_map(pr.node)
+                passing = set()
+                for m, t in post:
+                    passing.add(t.id)
+                    cur = pmr.get(t.stmt)
+                    while cur is not None and cur is not pr.node:
+                        if isinstance(cur, (ast.For, ast.While)):
+                            passing |= {n.id for n in rcfg.nodes if n.stmt is cur and n.kind in ("for", "forinit", "join")}
+                            cur = pmr.get(cur)
+                            continue
+                        if isinstance(cur, ast.If):
+                            break
                         cur = pmr.get(cur)
-                        continue
-                    if isinstance(cur, ast.If):
-                        break
-                    cur = pmr.get(cur)
-            # option attributes assigned only in __init__ keep their value during _read: repeated tests of them are correlated
-            stored_elsewhere = {w.attr for m in cls.methods.values() if m.name != "__init__" for w in writes_in(m.node) if w.kind in ("store", "augstore") and w.base is not None and norm(w.base) == "self"}
-            init = cls.methods.get("__init__")
-            rcfg.stable_attrs = {"self." + w.attr for w in writes_in(init.node) if w.kind == "store" and w.base is not None and norm(w.base) == "self" and w.attr not in stored_elsewhere} if init is not None else set()
-            for pnode in parse_nodes:
-                ok, w = rcfg.must_pass(pnode, lambda n: n.id in passing, edge_ok=rcfg.consistent_with(pnode))
-                rep.check(ok, "R20.6", pr.qualname, "declared %s not compared after `%s` on some path" % (dim, norm_stmt(pnode.stmt)[:50]), fn_where(pr, pnode.stmt),
-                          "every normal path from `%s` to the return passes a comparison with the declared %s" % (norm_stmt(pnode.stmt)[:40], dim),
-                          "PhylipReader._read can return after `%s` without comparing the declared `%s` with what was read (the comparison is skipped on some mode/flag combination): in that mode a document whose rows are shorter than declared comes back as a ragged matrix that contradicts its own header" % (norm_stmt(pnode.stmt)[:60], dim))
+                # option attributes assigned only in __init__ keep their value during _read: repeated tests of them are correlated
+                stored_elsewhere = {w.attr for m in cls.methods.values() if m.name != "__init__" for w in writes_in(m.node) if w.kind in ("store", "augstore") and w.base is not None and norm(w.base) == "self"}
+                init = cls.methods.get("__init__")
+                rcfg.stable_attrs = {"self." + w.attr for w in writes_in(init.node) if w.kind == "store" and w.base is not None and norm(w.base) == "self" and w.attr not in stored_elsewhere} if init is not None else set()
+                for pnode in parse_nodes:
+                    ok, w = rcfg.must_pass(pnode, lambda n: n.id in passing, edge_ok=rcfg.consistent_with(pnode))
+                    rep.check(ok, "R20.6", pr.qualname, "declared %s not compared after `%s` on some path" % (dim, norm_stmt(pnode.stmt)[:50]), fn_where(pr, pnode.stmt),
+                              "every normal path from `%s` to the return passes a comparison with the declared %s" % (norm_stmt(pnode.stmt)[:40], dim),
+                              "PhylipReader._read can return after `%s` without comparing the declared `%s` with what was read (the comparison is skipped on some mode/flag combination): in that mode a document whose rows are shorter than declared comes back as a ragged matrix that contradicts its own header" % (norm_stmt(pnode.stmt)[:60], dim))
 
 
 def _branch_calls_raiser(cfg, n):
